@@ -1,30 +1,55 @@
 import Crem.Proofs.Engine
+import Crem.Proofs.EngineGo
 /-!
 # C15 — the engine answers every request with a well-formed response and never panics  (partial)
 
-Theorems about the engine spec `Crem.Engine.step` (`Crem/Model/Engine.lean`) and the admin multiplexer
-`stepAdmin`.  Requests are *classified*: method, URL path (classified inside the model by `classifyPath`),
-content-type header value, and the facts the engine's decoders deliver about the body (`BodyFacts`: TOML and
-JSON parsing are NOT modelled, which is why the property is labelled partial; CSV bodies arrive as the typed
-table `ParseCsvTextIntoTable` builds — that reader is property C20's model — and are classified here by the
-total functions `classifyTable` / `classifySols`).  Every function of the model is total (structural recursion
-only), which is the Lean counterpart of "the handler returns": there is no input on which `step` is undefined.
-The code as it stands does panic on some classified inputs (D13); the `engine-raw` / `engine-seq` suites report
-each site directly and tell the driver (`obs = panic`).
+Two transcriptions of the engine's API multiplexer are used here.
+
+* `Crem.Engine.step` (`Crem/Model/Engine.lean`), the SPEC: a total function in which every partial Go operation is
+  fused with its guard into a total classifier.  "Every function is total" is NOT a statement about panics: it cannot
+  fail, and removing a Go guard breaks nothing in it.
+* `Crem.EngineGo.stepGo` (`Crem/Model/EngineGo.lean`), the Go-SHAPED transcription: outcome `Except Panic`, every
+  partial Go operation (`x.(T)`, `xs[i]`, nil dereference, `panic(variableMissing)`, `uint` subtraction) a primitive
+  that can answer `.error` at its use site, every Go guard its own function evaluated first.  The driver of the
+  `engine-seq` / `engine-raw` suites runs `stepGo` (a `.error` is printed as `panic`), so the correspondence with the
+  code is with this transcription.
+
+"Never panics" is `stepGo_eq_step` / `never_panics` below, proved from one lemma per guard; the `example`s at the end
+run the code behind each guard on an input the guard rejects and get a panic, so a removed guard is a failed proof.
+"Client error rather than silent acceptance" is the five `…_accepted_iff` theorems (200 exactly when …).
+"Syntactically valid JSON" is `declared_json_renders_to_json`, about the structured document type `JDoc` (no raw
+constructor) of `Crem/Model/EngineGo.lean` and the grammar `JsonText`.
+
+Requests are *classified*: method, URL path (classified inside the model by `classifyPath`), content-type header
+value, and the facts the engine's decoders deliver about the body (`BodyFacts`: TOML and JSON parsing are NOT
+modelled, which is why the property is labelled partial; CSV bodies arrive as the typed table
+`ParseCsvTextIntoTable` builds — that reader is property C20's model).
 Every `theorem` in this file is audited by `./check C15` (`#print axioms`).
 -/
 namespace Crem.Engine
+open Crem.EngineGo
 
-/-- the documented status codes -/
+/-! ## Status codes and error documents -/
+
+/-- the status codes the engine's documentation lists (500 and 503 are listed there; neither the spec nor the code's
+handlers produce them: see `status_is_one_of_five`) -/
 def documented : List Nat := [200, 400, 404, 405, 415, 500, 503]
 
 /-- For every state and every classified request — any method, any path, any content type, any body facts —
-the status is one of the documented ones. -/
+the status is one of the documented ones.  (Weaker than `status_is_one_of_five`; kept for its name.) -/
 theorem status_documented (W : World) (s : State) (r : Request) :
     (step Quirks.spec W s r).1.status ∈ documented := by
   rcases step_good W s r with h | ⟨h | h | h | h, _⟩ <;> simp [h, documented, err]
 
-/-- Every answer other than 200 is the JSON error document `{Type: "ERROR", Message, Time}`. -/
+/-- The status is one of 200, 400, 404, 405, 415: never 5xx.  As the code has it (sic): a wrong content type on
+POST /api/v1/scenario is 405 (not 415), and POST /api/v1/solutions before any scenario is loaded is 405 (not 404 / 409). -/
+theorem status_is_one_of_five (W : World) (s : State) (r : Request) :
+    (step Quirks.spec W s r).1.status ∈ [200, 400, 404, 405, 415] := by
+  rcases step_good W s r with h | ⟨h | h | h | h, _⟩ <;> simp [h, err]
+
+/-- Every answer other than 200 has the body `Body.error`, declared JSON; the third conjunct only unfolds
+`Body.toJson` on `Body.error` (the message text of the real document is not modelled: `messageDoc` carries a
+placeholder). -/
 theorem error_has_document (W : World) (s : State) (r : Request)
     (h : (step Quirks.spec W s r).1.status ≠ 200) :
     (step Quirks.spec W s r).1.body = .error ∧
@@ -34,17 +59,26 @@ theorem error_has_document (W : World) (s : State) (r : Request)
   · exact absurd h200 h
   all_goals (rw [hc]; simp [err, Response.ctype, Body.ctype, Body.toJson])
 
-/-- Malformed or semantically wrong input is a client error: whatever is not answered 200 is answered 4xx
-(never 5xx, never nothing), and leaves the engine as it was. -/
-theorem errors_are_client_errors (W : World) (s : State) (r : Request)
+/-- Whatever is not answered 200 is answered 400 / 404 / 405 / 415 and leaves the engine's state as it was.
+This says NOTHING about which requests are refused (a spec answering 200 to everything would satisfy it): that is
+what the acceptance theorems `…_accepted_iff` below are for. -/
+theorem non_200_is_4xx_and_changes_nothing (W : World) (s : State) (r : Request)
     (h : (step Quirks.spec W s r).1.status ≠ 200) :
     (step Quirks.spec W s r).1.status ∈ [400, 404, 405, 415] ∧ (step Quirks.spec W s r).2 = s := by
   rcases step_good W s r with h200 | ⟨hc | hc | hc | hc, hs⟩
   · exact absurd h200 h
   all_goals (rw [hc]; exact ⟨by simp [err], hs⟩)
 
-/-- Wherever JSON is declared the body is built from the JSON value type `JVal`, whose rendering `JVal.render`
-is a total function; the only non-JSON bodies are the two text resources, declared as TOML / CSV. -/
+/-- the former name of `non_200_is_4xx_and_changes_nothing` (cited elsewhere); same statement, same caveat -/
+theorem errors_are_client_errors (W : World) (s : State) (r : Request)
+    (h : (step Quirks.spec W s r).1.status ≠ 200) :
+    (step Quirks.spec W s r).1.status ∈ [400, 404, 405, 415] ∧ (step Quirks.spec W s r).2 = s :=
+  non_200_is_4xx_and_changes_nothing W s r h
+
+/-- Wherever JSON is declared, `Body.toJson` is defined.  This is a fact about the RESPONSE TYPE (the only bodies
+without a `toJson` are the two text resources), NOT a proof that the rendered text is syntactically valid JSON:
+`JVal.raw` holds any string (attribute values, `repr:<key>`), so `JVal.render` of a reachable response need not be
+JSON.  Kept for its name; the statement about JSON syntax is `declared_json_renders_to_json` below. -/
 theorem declared_json_is_json (q : Quirks) (W : World) (s : State) (r : Request)
     (h : (step q W s r).1.ctype = .json) : ∃ j : JVal, (step q W s r).1.body.toJson = some j := by
   generalize (step q W s r).1 = resp at h
@@ -52,30 +86,214 @@ theorem declared_json_is_json (q : Quirks) (W : World) (s : State) (r : Request)
   rename_i tt _ _
   cases tt <;> simp [TextType.ctype] at h
 
+/-- Every document of the structured type `JDoc` (no raw constructor: null, Booleans, decimal numbers, strings,
+arrays, objects) renders to a text of the JSON value grammar `JsonText` (RFC 8259, no white space): strings and
+object keys are escaped, numerals have no leading zero. -/
+theorem every_document_renders_to_json (d : JDoc) : JsonText d.render := render_valid d
+
+/-- Wherever JSON is declared the body has a document (`bodyDoc`) and its rendering is a JSON text — for EVERY
+interpretation `dv`, `av` of the two parts the spec keeps abstract (the decision-variable block of a model, the values
+of attributes) as JSON values.  What this covers: the document structure and the escaping of every string the engine
+writes (ids, names, labels, planning-unit keys, action types).  What it does not: that Go's encoder produces THIS text
+(the harness checks the real bytes with `json.Valid`), and JSON/TOML request parsing. -/
+theorem declared_json_renders_to_json (q : Quirks) (W : World) (s : State) (r : Request)
+    (dv : Universe → ActiveSet → JDoc) (av : Tok → JDoc) (h : (step q W s r).1.ctype = .json) :
+    ∃ d : JDoc, bodyDoc dv av (step q W s r).1.body = some d ∧ JsonText d.render := by
+  have hs := bodyDoc_isSome dv av (step q W s r).1.body
+  have hj : (step q W s r).1.body.ctype = .json := h
+  rw [hj] at hs
+  cases hd : bodyDoc dv av (step q W s r).1.body with
+  | none => simp [hd] at hs
+  | some d => exact ⟨d, rfl, render_valid d⟩
+
+/-- The grammar is not vacuous: the text `}{` (what splicing a raw attribute token into a document could produce) is
+not a JSON text. -/
+theorem json_grammar_rejects_braces : ¬ JsonText ['}', '{'] := by
+  intro h
+  cases h with
+  | num hn =>
+    obtain ⟨m, e, heq, hm, _⟩ := hn
+    cases m with
+    | nil => simp at heq
+    | cons a m' =>
+      simp only [List.cons_append, List.cons.injEq] at heq
+      obtain ⟨ha, heq'⟩ := heq
+      subst ha
+      rcases hm with hm | ⟨ds, hds, _⟩
+      · have := hm.2.1 '}' (by simp)
+        revert this; decide
+      · simp at hds
+
 /-- … and conversely a text body is declared with the content type of its resource. -/
 theorem text_is_declared_text (q : Quirks) (W : World) (s : State) (r : Request) (tt : TextType) (t : Bytes) (m : Bool)
     (h : (step q W s r).1.body = .text tt t m) : (step q W s r).1.ctype = tt.ctype ∧ tt.ctype ≠ .json := by
   refine ⟨by simp [Response.ctype, h, Body.ctype], ?_⟩
   cases tt <;> simp [TextType.ctype]
 
-/-- The admin multiplexer (`/status`, `/shutdown`): documented statuses, JSON throughout. -/
-theorem admin_status_documented (down : Bool) (method : Method) (path : String) :
-    (stepAdmin down method path).1.status ∈ documented ∧ (stepAdmin down method path).1.ctype = .json := by
+/-! ### The admin multiplexer (`/status`, `/shutdown`)
+
+`stepAdmin` has a state: has a shutdown been requested.  "The handler returns" for the shutdown handler is a
+statement about the code (it must not wait for a receiver of its signal while it holds the request lock); the
+`engine-raw` suite watches the goroutine and reports a blocked handler as `engine:admin-handler-blocks`. -/
+
+/-- Every admin answer is 200 with the status document of the state it leaves, or the error document (404 unknown
+path, 405 wrong method) with the state as it was. -/
+theorem admin_step_cases (down : Bool) (method : Method) (path : String) :
+    (stepAdmin down method path).1 = ok (.adminStatus (stepAdmin down method path).2) ∨
+    (((stepAdmin down method path).1 = err 404 ∨ (stepAdmin down method path).1 = err 405) ∧
+      (stepAdmin down method path).2 = down) := by
   unfold stepAdmin
-  split <;> (try split) <;> simp [documented, ok, err, Response.ctype, Body.ctype]
+  split <;> (try split) <;> simp
+
+/-- Documented statuses, JSON declared and a JSON document throughout. -/
+theorem admin_status_documented (down : Bool) (method : Method) (path : String) :
+    (stepAdmin down method path).1.status ∈ documented ∧ (stepAdmin down method path).1.ctype = .json ∧
+    ∃ j : JVal, (stepAdmin down method path).1.body.toJson = some j := by
+  rcases admin_step_cases down method path with h | ⟨h | h, _⟩ <;>
+    (rw [h]; simp [documented, ok, err, Response.ctype, Body.ctype, Body.toJson])
+
+/-- A shutdown request is answered 200 with SHUTTING_DOWN in every state, and asking again is answered the same
+way and changes nothing. -/
+theorem shutdown_idempotent (down : Bool) :
+    stepAdmin down .post "/shutdown" = (ok (.adminStatus true), true) ∧
+    stepAdmin (stepAdmin down .post "/shutdown").2 .post "/shutdown" = stepAdmin down .post "/shutdown" := by
+  simp [stepAdmin, classifyAdminPath]
+
+/-- A request changes the state only by being a shutdown request that is answered 200. -/
+theorem admin_state_step (down : Bool) (method : Method) (path : String) :
+    ((stepAdmin down method path).2 = true ↔
+      down = true ∨ ((method, path) = (Method.post, "/shutdown") ∧ (stepAdmin down method path).1.status = 200)) := by
+  unfold stepAdmin classifyAdminPath
+  by_cases h1 : path = "/status"
+  · subst h1; by_cases hm : method = .get <;> simp [hm, ok, err]
+  · by_cases h2 : path = "/shutdown"
+    · subst h2; by_cases hm : method = .post <;> simp [hm, ok, err]
+    · simp [h1, h2, err]
+
+/-- … hence, over any sequence of requests from any state. -/
+theorem runAdmin_state (down : Bool) (rs : List (Method × String)) :
+    ((runAdmin down rs).2 = true ↔
+      down = true ∨ ∃ p ∈ rs.zip (runAdmin down rs).1, p.1 = (Method.post, "/shutdown") ∧ p.2.status = 200) := by
+  induction rs generalizing down with
+  | nil => simp [runAdmin]
+  | cons r rs ih =>
+    obtain ⟨m, p⟩ := r
+    simp only [runAdmin, List.zip_cons_cons, List.mem_cons]
+    rw [ih, admin_state_step]
+    constructor
+    · rintro ((h | h) | ⟨q, hq, hh⟩)
+      · exact Or.inl h
+      · exact Or.inr ⟨_, Or.inl rfl, h⟩
+      · exact Or.inr ⟨q, Or.inr hq, hh⟩
+    · rintro (h | ⟨q, hq | hq, hh⟩)
+      · exact Or.inl (Or.inl h)
+      · subst hq; exact Or.inl (Or.inr hh)
+      · exact Or.inr ⟨q, hq, hh⟩
+
+/-- After ANY sequence of admin requests to a running server, `GET /status` is answered 200 with a status document
+whose `Status` word is SHUTTING_DOWN if and only if some earlier request was a `POST /shutdown` answered 200
+(otherwise it is RUNNING: `statusWord`). -/
+theorem status_reports_shutdown (rs : List (Method × String)) :
+    ∃ d, (stepAdmin (runAdmin false rs).2 .get "/status").1 = ok (.adminStatus d) ∧
+      (statusWord d = "SHUTTING_DOWN" ↔
+        ∃ p ∈ rs.zip (runAdmin false rs).1, p.1 = (Method.post, "/shutdown") ∧ p.2.status = 200) := by
+  refine ⟨(runAdmin false rs).2, by simp [stepAdmin, classifyAdminPath], ?_⟩
+  have h := runAdmin_state false rs
+  simp only [Bool.false_eq_true, false_or] at h
+  rw [← h]
+  cases (runAdmin false rs).2 <;> simp [statusWord]
+
+/-- non-vacuity: both sides of the equivalence occur, a second shutdown request is answered, errors are errors -/
+example : (runAdmin false [(.get, "/status"), (.post, "/shutdown"), (.get, "/status"), (.post, "/shutdown"),
+      (.put, "/status"), (.get, "/shutdown"), (.get, "/nowhere"), (.get, "/status")]).1 =
+    [ok (.adminStatus false), ok (.adminStatus true), ok (.adminStatus true), ok (.adminStatus true),
+     err 405, err 405, err 404, ok (.adminStatus true)] := by decide
+example : (runAdmin false [(.get, "/shutdown"), (.post, "/status"), (.get, "/status")]).1 =
+    [err 405, err 405, ok (.adminStatus false)] := by decide
+example : statusWord false = "RUNNING" ∧ statusWord true = "SHUTTING_DOWN" := by decide
+example : (Body.adminStatus true).toJson.map JVal.render =
+    some "{\"ServiceName\":\"…\",\"Version\":\"…\",\"Status\":\"SHUTTING_DOWN\",\"Time\":\"…\"}" := by decide
 
 /-- The route patterns are pairwise disjoint and exhaustive by construction: `classifyPath` is a function, so
 the handler chosen does not depend on the iteration order of the Go map of compiled patterns.  What is checked
-here is that the literal routes classify as themselves. -/
+here (by evaluation) is only that the literal routes classify as themselves. -/
 theorem literal_routes :
     classifyPath "/api/v1/scenario" = .scenario ∧ classifyPath "/api/v1/solutions" = .solutions ∧
     classifyPath "/api/v1/model" = .model ∧ classifyPath "/api/v1/model/actions/active" = .active ∧
     classifyPath "/api/v1/model/actions/applicable" = .applicable ∧ classifyPath "/" = .root := by decide
 
-/-! ## CSV bodies: every typed table is classified, and only well-formed ones are accepted -/
+/-! ## Acceptance: a writing request is answered 200 EXACTLY when …
+
+"Malformed or semantically wrong input is a client error rather than silently accepted": for each of the five writing
+endpoints, the status is 200 if and only if the listed conditions hold — so everything else is refused (with a 4xx and
+no state change, by `non_200_is_4xx_and_changes_nothing`).  The statements are about `step`, not about the classifiers.
+
+ACCEPTED BY THE SPEC (transcribed from the code), NOT REQUIRED BY THE PROPERTY — each of these is answered 200 because
+the Go code answers 200, and the conditions below say so honestly:
+  * PUT /model/actions/active: a textual or boolean FIRST column when the table has one column only
+    (`!isNumber && colSize > 1`); headings that name no action type and first cells that name no planning unit of the
+    model (ignored, with a log line); a first cell such as `17.9` (truncated to planning unit 17 by
+    `planningunit.Id(float64)`), negative / NaN / huge first cells (match nothing); `-0` as a flag;
+  * POST /solutions: row 0 of the table is never type- or pattern-checked (`rowIndex > 0`); a table WITHOUT an
+    "As-Is" row is not verified against the scenario at all; `Actions` cells need only match `^[0-9A-Fa-f:]*$`
+    (an undecodable encoding surfaces later, at GET /solutions/<label>, as a 200 with as-is actions);
+  * PUT /model/subcatchment/<id>: the request's CONTENT TYPE IS NOT CHECKED (any value, or none, is accepted);
+  * PATCH /model: any attribute names and JSON values besides `Encoding`; an empty list;
+  * status codes (sic): wrong content type on POST /scenario = 405, POST /solutions without a scenario = 405.
+-/
+
+/-- PUT /api/v1/model/actions/active is answered 200 iff a model is loaded, the content type is `text/csv`, the body
+parsed as CSV and `classifyTable` accepts the table (see `table_accepted_iff_guards` for what that means). -/
+theorem put_active_accepted_iff (W : World) (s : State) (r : Request)
+    (hp : classifyPath r.path = .active) (hm : r.method = .put) :
+    (step Quirks.spec W s r).1.status = 200 ↔
+      s.snap.isSome = true ∧ s.live.isSome = true ∧ r.ctype = csvMime ∧
+      ∃ c types rows, r.facts = .csv c ∧ classifyTable c = .ok types rows := by
+  rw [step_active_put _ _ _ _ hp hm]; exact putActive_200_iff _ W s r
+
+/-- PUT /api/v1/model/subcatchment/<id> is answered 200 iff a model is loaded, `<id>` is an integer (`Atoi`) naming a
+planning unit of the served model, the body parsed as a JSON attribute list, every entry names one of the four action
+types with the value "Active" or "Inactive" (`subSyntaxOk`) and every named action exists at that planning unit
+(`subSupported`).  NOTE: `r.ctype` does not occur — the content type is not checked, as in the Go code. -/
+theorem put_subcatchment_accepted_iff (W : World) (s : State) (r : Request) (id : String)
+    (hp : classifyPath r.path = .sub id) (hm : r.method = .put) :
+    (step Quirks.spec W s r).1.status = 200 ↔
+      ∃ sn m pu entries, s.snap = some sn ∧ s.live = some m ∧ atoi? id = some pu ∧ sn.u.pus.contains pu = true ∧
+        r.facts = .sub (some entries) ∧ subSyntaxOk entries = true ∧ subSupported m.u pu entries = true := by
+  rw [step_sub_put _ _ _ _ id hp hm]; exact putSub_200_iff W s r id
+
+/-- PATCH /api/v1/model is answered 200 iff a model is loaded, the content type is `application/json`, the body parsed
+as a JSON attribute list and EVERY `Encoding` entry is a string that decodes for the model's action count
+(`decodeEntries … = some sets`). -/
+theorem patch_model_accepted_iff (W : World) (s : State) (r : Request)
+    (hp : classifyPath r.path = .model) (hm : r.method = .patch) :
+    (step Quirks.spec W s r).1.status = 200 ↔
+      ∃ m entries sets, s.snap.isSome = true ∧ s.live = some m ∧ r.ctype = jsonMime ∧
+        r.facts = .patch (some entries) ∧ decodeEntries m.u.acts.length entries = some sets := by
+  rw [step_model_patch _ _ _ _ hp hm]; exact patchModel_200_iff W s r
+
+/-- POST /api/v1/solutions is answered 200 iff a scenario is loaded, the content type is `text/csv`, the body parsed
+as CSV and `classifySols` accepts the table against the model's as-is decision variables (≥ 2 columns, headings
+`Solution` … `Actions`, `Summary`, typed cells from row 1 on, every "As-Is" row equal to the model's as-is values). -/
+theorem post_solutions_accepted_iff (W : World) (s : State) (r : Request)
+    (hp : classifyPath r.path = .solutions) (hm : r.method = .post) :
+    (step Quirks.spec W s r).1.status = 200 ↔
+      ∃ m c t, s.scenText.isSome = true ∧ r.ctype = csvMime ∧ s.live = some m ∧ r.facts = .csv c ∧
+        classifySols m.u.asIs c = .ok t := by
+  rw [step_solutions_post _ _ _ _ hp hm]; exact postSolutions_200_iff W s r
+
+/-- POST /api/v1/scenario is answered 200 iff the content type is `application/toml` and the body is a scenario the
+engine can load (TOML decodes, the model type is the catchment model, its parameters and data set load). -/
+theorem post_scenario_accepted_iff (W : World) (s : State) (r : Request)
+    (hp : classifyPath r.path = .scenario) (hm : r.method = .post) :
+    (step Quirks.spec W s r).1.status = 200 ↔ r.ctype = tomlMime ∧ ∃ name u, r.facts = .scen (.ok name u) := by
+  rw [step_scenario_post _ _ _ _ hp hm]; exact postScenario_200_iff W s r
+
+/-! ## CSV bodies: what `classifyTable` accepts -/
 
 /-- A table PUT is accepted only if its first heading is `SubCatchment` and every other cell is the number 0 or 1
-(and, when there is more than one column, every first cell is a number): nothing else gets through. -/
+(and, when there is more than one column, every first cell is a number).  "Well-formed" here means exactly that and
+no more — see the block "accepted by the spec, not required by the property" above for what still gets through. -/
 theorem table_accepted_only_if_wellformed (header : List String) (rows : List (List Cell))
     (types : List String) (rs : List (Option Nat × List Bool))
     (h : classifyTable (.table header rows) = .ok types rs) :
@@ -105,6 +323,232 @@ theorem table_accepted_only_if_wellformed (header : List String) (rows : List (L
             · rfl
           exact List.all_eq_true.mp a3 row hrow
 
+/-- … and exactly then: the spec's classifier IS the three guards of `deriveSolutionTable` (first heading, cell type
+switch, first-column test), and what it hands on is the headings after the first and `rowOf` of every row. -/
+theorem table_accepted_iff_guards (header : List String) (rows : List (List Cell))
+    (types : List String) (rs : List (Option Nat × List Bool)) :
+    classifyTable (.table header rows) = .ok types rs ↔
+      header[0]? = some "SubCatchment" ∧ cellGuard rows = true ∧ firstColumnGuard header rows = true ∧
+      types = header.drop 1 ∧ rs = rows.map rowOf := by
+  rw [classifyTable_guards]
+  by_cases h1 : header[0]? = some "SubCatchment"
+  · rcases Bool.eq_false_or_eq_true (cellGuard rows) with h2 | h2
+    · rcases Bool.eq_false_or_eq_true (firstColumnGuard header rows) with h3 | h3
+      · simp only [h1, h2, h3, ne_eq, not_true_eq_false, ↓reduceIte, Bool.true_eq_false, TableBody.ok.injEq, true_and]
+        constructor
+        · rintro ⟨a, b⟩; exact ⟨a.symm, b.symm⟩
+        · rintro ⟨a, b⟩; exact ⟨a.symm, b.symm⟩
+      · simp [h1, h2, h3]
+    · simp [h1, h2]
+  · simp [h1]
+
+/-! ## Never panics: the Go-shaped transcription, one theorem per guard
+
+Each theorem says: the guard the Go code evaluates first (or, where the code has no guard, the stated fact about the
+engine's state) makes the partial operation that follows answer `.ok`.  Sites are named as in
+`Crem/Model/EngineGo.lean`. -/
+
+/-- v1activeActionslHandler.go, `deriveSolutionTable`'s type switch over columns 1.. (`cellGuard`) protects
+`CellFloat64(colIndex,rowIndex).(float64)` in `deriveSuppliedActionState`. -/
+theorem cell_guard_protects_cellFloat64 {row : List Cell} {col : Nat} {c : Cell} (hc : row[col]? = some c)
+    (hflag : isFlagCell c = true) : deriveSuppliedActionState row col = .ok (flagOf c) :=
+  Crem.EngineGo.cell_guard_protects_cellFloat64 hc hflag
+
+/-- `deriveSolutionTable`'s first-column test (`firstColumnGuard`: a number whenever there is more than one column)
+and the loop bound `colIndex < colSize = len(Header())` protect `CellFloat64(0,rowIndex).(float64)` and
+`Header()[colIndex]`, evaluated once per model action in `processTableCell`. -/
+theorem first_column_guard_protects_cellFloat64 {header : List String} {row : List Cell} {col : Nat} {bits : Nat}
+    {str ty : String} (h0 : row[0]? = some (.num bits str)) (hty : header[col]? = some ty) (state : Bool)
+    (acts : List (Nat × String)) (set : ActiveSet) :
+    forActions header row col state acts set =
+      .ok (List.zipWith (fun (a : Nat × String) x => if floatToId bits = some a.1 ∧ a.2 = ty then state else x) acts set) :=
+  Crem.EngineGo.first_column_guard_protects_cellFloat64 h0 hty state acts set
+
+/-- … and for a model WITHOUT actions (or a one-column table) nothing is evaluated, whatever the cells are: this is
+why the code may accept a textual first column there. -/
+theorem no_action_no_cell_read (header : List String) (row : List Cell) (col : Nat) (state : Bool) (set : ActiveSet) :
+    forActions header row col state [] set = .ok [] :=
+  forActions_nil header row col state set
+
+/-- The three guards of `deriveSolutionTable` together: `processRequestTable` runs to its end and computes the spec's
+`applyTable`. -/
+theorem put_active_guards_protect_table_loop (u : Universe) (header : List String) (rows : List (List Cell)) (set : ActiveSet)
+    (hrect : csvRect (.table header rows) = true)
+    (hcells : cellGuard rows = true) (hfirst : firstColumnGuard header rows = true)
+    (hlen : set.length = u.acts.length) :
+    processRequestTable u header rows set = .ok (applyTable u (header.drop 1) (rows.map rowOf) set) :=
+  processRequestTable_eq u header rows set (csvRect_iff.mp hrect).1 (csvRect_iff.mp hrect).2 hcells hfirst hlen
+
+/-- v1solutionSetHandler.go, `deriveSolutionsRequestTable`: the guard `headerLength < 2 ⇒ reject` protects
+`Header()[headerLength-2]` (and `[0]`, `[headerLength-1]`). -/
+theorem header_length_guard_protects_headings (header : List String) (h2 : 2 ≤ header.length) :
+    solHeadingsOk header =
+      .ok (decide (header.head? = some "Solution" ∧ header[header.length - 2]? = some "Actions" ∧
+                   header[header.length - 1]? = some "Summary")) :=
+  Crem.EngineGo.header_length_guard_protects_headings header h2
+
+/-- `verifySolutionSummaryMatchesScenario`: the guard `colIndex >= colSize ⇒ mismatch` protects `Header()[colIndex]`
+(and `Cell(colIndex,rowIndex)`). -/
+theorem as_is_column_guard_protects_header_index (asIs : List (String × Nat)) (header : List String) (row : List Cell)
+    (hrect : row.length = header.length) (col : Nat) (hlt : col < header.length) :
+    ∃ b, asIsCellMatches asIs header row col = .ok b :=
+  ⟨_, Crem.EngineGo.as_is_column_guard_protects_header_index asIs header row hrect col hlt⟩
+
+/-- `verifySolutionSummaryMatchesScenario`: the `NameMappedVariables` look-up (`isModelVariable`) protects
+`asIsModel.DecisionVariable(name)`, which panics for an unknown name. -/
+theorem as_is_variable_guard_protects_decisionVariable (asIs : List (String × Nat)) (name : String) (tableValue : Nat)
+    (h : asIs.any (fun v => decide (v.1 = name)) = true) :
+    ∃ b, asIsValueMatches asIs name tableValue = .ok b := by
+  obtain ⟨v, _, hm⟩ := Crem.EngineGo.as_is_variable_guard_protects_decisionVariable asIs name tableValue h
+  exact ⟨_, hm⟩
+
+/-- Both guards: the whole verification of a rectangular table answers, with the spec's verdict. -/
+theorem as_is_guards_protect_verification (asIs : List (String × Nat)) (header : List String) (rows : List (List Cell))
+    (hrect : csvRect (.table header rows) = true) :
+    verifySummary asIs header rows = .ok (isFine (checkAsIs asIs header rows)) :=
+  verifySummary_eq asIs header rows (csvRect_iff.mp hrect).1 (csvRect_iff.mp hrect).2
+
+/-- MuxSupport.go, `encodingPresentInSolutionSummaryParetoFront` has NO guard of its own for `colSize - 2` (a `uint`):
+what protects it is that the loaded table was accepted by `deriveSolutionsRequestTable` (≥ 2 columns) … -/
+theorem accepted_table_protects_encoding_index (t : SolTable) (enc : String) (h : tableWf t = true) :
+    encodingPresentInParetoFront t enc = .ok (paretoHas t enc) :=
+  Crem.EngineGo.accepted_table_protects_encoding_index t enc h
+
+/-- … which holds of every table `classifySols` accepts from a table as the CSV reader builds it … -/
+theorem accepted_table_has_two_columns {asIs : List (String × Nat)} {c : Csv} {t : SolTable} (hrect : csvRect c = true)
+    (h : classifySols asIs c = .ok t) : tableWf t = true :=
+  classifySols_ok_wf hrect h
+
+/-- … hence of the loaded table in every state the engine reaches. -/
+theorem loaded_table_has_two_columns (W : World) (rs : List Request) (hrs : ∀ r ∈ rs, reqWf r = true) :
+    TableWf (exec Quirks.spec W State.init rs) :=
+  tableWf_exec W State.init rs tableWf_init hrs
+
+/-- v1solutionHandler.go: the guard `solutionSetTableContainsEntry(label)` protects the dereference of what
+`getSolutionDetail` returns (nil when no row carries the label) and, with the table's shape, its `colSize-2` /
+`colSize-1` cell reads. -/
+theorem containment_guard_protects_detail (t : SolTable) (label : String) (hwf : tableWf t = true)
+    (hfound : containsEntry label t.rows = .ok true) : ∃ d, solutionDetailOf t label = .ok d :=
+  Crem.EngineGo.containment_guard_protects_detail t label hwf hfound
+
+/-- v1modelHandler.go: the pre-validation loop protects the UNCHECKED `entry.Value.(string)` of the second loop, and
+makes the second loop's 400 (`updateModelWithEncoding` failing after `JoiningAttributes`) unreachable: the loop ends
+`fine`.  Pre-validation and application use the same decoder on a model with the same action list. -/
+theorem prevalidation_protects_type_assertion (q : Quirks) (W : World) (tbl : Option SolTable)
+    (hwf : ∀ t, tbl = some t → tableWf t = true) (m joined : Mdl) (hu : joined.u = m.u) (snap : Option Mdl)
+    (es : List PatchEntry) (hpre : prevalidate (some m) es = .ok true) :
+    ∃ l, applyEncodings q W tbl joined snap false es = .ok l ∧ l.fine = true :=
+  Crem.EngineGo.prevalidation_protects_type_assertion q W tbl hwf m joined hu snap es hpre
+
+/-- The second-loop 400 of PATCH /model is dead code: once pre-validation has passed, the rest of the handler answers
+200 (no panic, no 400), whatever the variant. -/
+theorem patch_second_loop_400_unreachable (q : Quirks) (W : World) (s : State) (m : Mdl) (entries : List PatchEntry)
+    (hlive : s.live = some m) (hwf : TableWf s) (hpre : prevalidate s.live entries = .ok true) :
+    ∃ s', patchApply q W s entries = .ok (ok .success, s') :=
+  patchApply_ok q W s m entries hlive hwf hpre
+
+/-- `m.Attribute(scenarioNameKey).(string)` — in every GET of a model resource, GET /scenario, GET and POST /solutions,
+PUT subcatchment — is NOT protected by the guard in front of it (`m.modelSolution == nil`, resp.
+`HasAttribute(scenarioTextKey)`): it needs the INVARIANT that snapshot, scenario text and scenario name exist together. -/
+theorem scenario_name_present (W : World) (s : State) (h : Inv W s)
+    (hs : s.snap.isSome = true ∨ s.scenText.isSome = true) (site : String) :
+    ∃ n, attrString s.scenName site = .ok n := by
+  have hn : s.scenName.isSome = true := by
+    rcases hs with hs | hs
+    · rw [h.name_iff, ← h.snap_eq]; exact hs
+    · rw [h.name_iff, ← h.text_iff]; exact hs
+  obtain ⟨n, _, hok⟩ := attrString_isSome hn site
+  exact ⟨n, hok⟩
+
+/-- `m.model.…` after the guard `m.modelSolution == nil` (PATCH, PUT active, PUT subcatchment) or
+`HasAttribute(scenarioTextKey)` (POST /solutions): needs the invariant too. -/
+theorem model_pointer_present (W : World) (s : State) (h : Inv W s)
+    (hs : s.snap.isSome = true ∨ s.scenText.isSome = true) (site : String) :
+    ∃ m, deref s.live site = .ok m := by
+  have hl : s.live.isSome = true := by
+    rcases hs with hs | hs
+    · rw [← h.snap_eq]; exact hs
+    · rw [← h.text_iff]; exact hs
+  cases hlive : s.live with
+  | none => simp [hlive] at hl
+  | some m => exact ⟨m, rfl⟩
+
+/-! ## Never panics: the multiplexer -/
+
+/-- What the handlers need of the state beyond their own guards, whatever the variant `q`: `GoInv s` (each field is
+documented with the handlers that use it; handlers without a partial operation need nothing).  The Go-shaped
+transcription then answers — no panic — and answers what the total spec says. -/
+theorem stepGo_eq_step_of_facts (q : Quirks) (W : World) (s : State) (r : Request) (h : GoInv s) (hr : reqWf r = true) :
+    stepGo q W s r = .ok (step q W s r) :=
+  stepGo_eq_of_goInv q W s r h hr
+
+/-- In every state satisfying the invariant of the demanded behaviour (`Inv`, preserved by every request:
+`inv_step`) whose loaded table has the accepted shape (`TableWf`, preserved too: `loaded_table_has_two_columns`), on
+every request whose CSV facts are a table as `deriveTableFromRecords` builds it (`reqWf`: non-empty header, every row
+as long as the header), the Go-shaped handlers do not panic and compute exactly the spec's response and next state. -/
+theorem stepGo_eq_step (W : World) (s : State) (r : Request) (h : Inv W s) (ht : TableWf s) (hr : reqWf r = true) :
+    stepGo Quirks.spec W s r = .ok (step Quirks.spec W s r) :=
+  stepGo_eq_of_goInv Quirks.spec W s r (goInv_of_inv h ht) hr
+
+/-- NEVER PANICS.  From the empty engine, after ANY sequence of requests (any methods, paths, content types, body
+facts; CSV facts rectangular), every request is answered: the whole run of the Go-shaped transcription is `.ok` with
+the spec's responses, and whatever request comes next is answered too. -/
+theorem never_panics (W : World) (rs : List Request) (hrs : ∀ r ∈ rs, reqWf r = true) :
+    runGo Quirks.spec W State.init rs = .ok (run Quirks.spec W State.init rs) ∧
+    ∀ r, reqWf r = true → ∀ p, stepGo Quirks.spec W (exec Quirks.spec W State.init rs) r ≠ .error p := by
+  refine ⟨runGo_eq_run W rs State.init (inv_init W) tableWf_init hrs, ?_⟩
+  intro r hr p
+  rw [stepGo_eq_step W _ r (inv_exec W State.init rs (inv_init W)) (tableWf_exec W State.init rs tableWf_init hrs) hr]
+  exact fun h => by cases h
+
+/-! ## Each guard is NEEDED: the code behind it panics on an input the guard rejects (tests, labelled as such)
+
+The left-hand sides are the named continuations of `Crem/Model/EngineGo.lean` — the code that runs AFTER the guard —
+applied to an input the guard would have refused.  Were a guard removed from the Go-shaped handler, these inputs would
+reach the continuation and `stepGo_eq_step` would be false. -/
+
+def uGully : Universe := { key := "k", acts := [(1, "GullyRestoration")], pus := [1], asIs := [("SedimentProduced", 0)] }
+def mGully : Mdl := { u := uGully, id := "s", active := [false], attrs := [] }
+
+/-- `cellGuard` removed: a text cell in an action column → `CellFloat64(col,row).(float64)` panics -/
+example : processRequestTable uGully ["SubCatchment", "GullyRestoration"] [[.num bitsOne "1", .text "yes"]] [false] =
+    .error (.typeAssertion "deriveSuppliedActionState: CellFloat64(colIndex,rowIndex).(float64)") := by decide
+/-- `firstColumnGuard` removed: a textual first cell in a two-column table → `CellFloat64(0,row).(float64)` panics … -/
+example : processRequestTable uGully ["SubCatchment", "GullyRestoration"] [[.text "one", .num bitsOne "1"]] [false] =
+    .error (.typeAssertion "processTableCell: CellFloat64(0,rowIndex).(float64)") := by decide
+/-- … but only if the model has an action (the read sits in the action loop) -/
+example : processRequestTable { uGully with acts := [] } ["SubCatchment", "GullyRestoration"] [[.text "one", .num bitsOne "1"]] [] =
+    .ok [] := by decide
+/-- a header without a field (impossible for `encoding/csv`; excluded by `reqWf`) → `Header()[0]` panics -/
+example : headingIsSubCatchment [] = .error (.indexOutOfRange "deriveSolutionTable: Header()[0]") := by decide
+/-- `headerLength < 2` removed: a one-column solutions table → `Header()[headerLength-2]` panics -/
+example : solHeadingsOk ["Solution"] =
+    .error (.indexOutOfRange "deriveSolutionsRequestTable: Header()[headerLength-2]") := by decide
+/-- `colIndex >= colSize` removed: more decision variables than columns → `Header()[colIndex]` panics -/
+example : asIsCellMatches uGully.asIs ["Solution", "Actions"] [.text "As-Is", .text "0"] 2 =
+    .error (.indexOutOfRange "verifySolutionSummaryMatchesScenario: Header()[colIndex]") := by decide
+/-- `isModelVariable` removed: a heading that is no decision variable → `DecisionVariable(name)` panics -/
+example : asIsValueMatches uGully.asIs "NoSuchVariable" 0 =
+    .error (.explicitPanic "verifySolutionSummaryMatchesScenario: asIsModel.DecisionVariable(name)") := by decide
+/-- a one-column table in the state (what `headerLength < 2` keeps out) → `colSize - 2` wraps, `CellString` panics -/
+example : encodingPresentInParetoFront { colSize := 1, rows := [["As-Is"], ["S1"]] } "0" =
+    .error (.indexOutOfRange "encodingPresentInSolutionSummaryParetoFront: CellString(colSize-2,row)") := by decide
+/-- `solutionSetTableContainsEntry` removed: an unknown label → `getSolutionDetail` returns nil, `detail.encoding` panics -/
+example : solutionDetailOf { colSize := 3, rows := [["As-Is", "0", "x"]] } "S9" =
+    .error (.nilDereference "v1GetSolutionHandler: detail.encoding") := by decide
+/-- pre-validation removed: a non-string `Encoding` → `entry.Value.(string)` panics … -/
+example : applyEncodings Quirks.spec ⟨fun _ _ => true⟩ none mGully none false [⟨"Encoding", "7", .nonString⟩] =
+    .error (.typeAssertion "v1PatchModelHandler: entry.Value.(string)") := by decide
+/-- … and an undecodable one reaches the second-loop 400 (the branch exists; it is dead only behind pre-validation) -/
+example : (applyEncodings Quirks.spec ⟨fun _ _ => true⟩ none mGully none false [⟨"Encoding", "\"zz\"", .text "zz"⟩]).map (·.fine) =
+    .ok false := by decide
+/-- the invariant is needed: a snapshot without a scenario name (not reachable) → `Attribute(scenarioNameKey).(string)` panics -/
+example : getModelGo { snap := some mGully } =
+    .error (.typeAssertion "v1GetModelHandler: m.Attribute(scenarioNameKey).(string)") := by decide
+/-- … and a snapshot without a live model (not reachable) → `m.model.JoiningAttributes` panics -/
+example : patchApply Quirks.spec ⟨fun _ _ => true⟩ { snap := some mGully, scenName := some "s" } [] =
+    .error (.nilDereference "v1PatchModelHandler: m.model.JoiningAttributes") := by decide
+
 /-! ## Non-vacuity and sanity examples (tests, labelled as such) -/
 
 example : (step Quirks.spec ⟨fun _ _ => true⟩ State.init (getReq "/api/v1/model")).1 = err 404 := by decide
@@ -123,5 +567,46 @@ example : classifyTable (.table ["SubCatchment", "GullyRestoration"] [[.text "ab
 example : classifySols [] (.table ["Solution"] [[.text "As-Is"]]) = .oneColumn := by decide
 example : (JVal.obj [("Type", .str "ERROR"), ("Message", .str "a \"quoted\" word")]).render =
     "{\"Type\":\"ERROR\",\"Message\":\"a \\\"quoted\\\" word\"}" := by decide
+
+/-- structured documents: an attribute value is a VALUE, never spliced text; control characters are escaped -/
+example : (attrsDocOf (fun t => .str t) [⟨"a\n", "}{"⟩]).text = "[{\"Name\":\"a\\u000a\",\"Value\":\"}{\"}]" := by decide
+example : (JDoc.num (-12) 3).text = "-12e3" := by decide
+
+/-- a state with a scenario loaded (reached by one accepted POST /scenario) -/
+def sLoaded : State :=
+  (step Quirks.spec ⟨fun _ _ => true⟩ State.init
+    { method := .post, path := "/api/v1/scenario", ctype := tomlMime, text := [], facts := .scen (.ok "s" uGully) }).2
+
+/-- the acceptance theorems are not vacuous: each endpoint has an accepted request … -/
+example : (step Quirks.spec ⟨fun _ _ => true⟩ State.init
+    { method := .post, path := "/api/v1/scenario", ctype := tomlMime, text := [], facts := .scen (.ok "s" uGully) }).1.status = 200 := by
+  decide
+example : (step Quirks.spec ⟨fun _ _ => true⟩ sLoaded
+    { method := .put, path := "/api/v1/model/actions/active", ctype := csvMime, text := [],
+      facts := .csv (.table ["SubCatchment", "GullyRestoration"] [[.num bitsOne "1", .num bitsOne "1"]]) }).1.status = 200 := by
+  decide
+example : (step Quirks.spec ⟨fun _ _ => true⟩ sLoaded
+    { method := .put, path := "/api/v1/model/subcatchment/1", ctype := "anything/at-all", text := [],
+      facts := .sub (some [⟨"GullyRestoration", .active⟩]) }).1.status = 200 := by decide
+example : (step Quirks.spec ⟨fun _ _ => true⟩ sLoaded
+    { method := .patch, path := "/api/v1/model", ctype := jsonMime, text := [],
+      facts := .patch (some [⟨"Encoding", "\"1\"", .text "1"⟩]) }).1.status = 200 := by decide
+example : (step Quirks.spec ⟨fun _ _ => true⟩ sLoaded
+    { method := .post, path := "/api/v1/solutions", ctype := csvMime, text := [],
+      facts := .csv (.table ["Solution", "SedimentProduced", "Actions", "Summary"]
+        [[.text "As-Is", .num 0 "0", .text "0", .text "as is"]]) }).1.status = 200 := by decide
+/-- … and a refused one -/
+example : (step Quirks.spec ⟨fun _ _ => true⟩ sLoaded
+    { method := .put, path := "/api/v1/model/actions/active", ctype := csvMime, text := [],
+      facts := .csv (.table ["SubCatchment", "GullyRestoration"] [[.num bitsOne "1", .text "yes"]]) }).1 = err 400 := by
+  decide
+example : (step Quirks.spec ⟨fun _ _ => true⟩ sLoaded
+    { method := .patch, path := "/api/v1/model", ctype := jsonMime, text := [],
+      facts := .patch (some [⟨"Encoding", "7", .nonString⟩]) }).1 = err 400 := by decide
+/-- the Go-shaped transcription on the same requests: answered, identically (`stepGo_eq_step` is not vacuous) -/
+example : stepGo Quirks.spec ⟨fun _ _ => true⟩ sLoaded
+    { method := .put, path := "/api/v1/model/actions/active", ctype := csvMime, text := [],
+      facts := .csv (.table ["SubCatchment", "GullyRestoration"] [[.num bitsOne "1", .text "yes"]]) } =
+    .ok (err 400, sLoaded) := by decide
 
 end Crem.Engine
